@@ -193,7 +193,7 @@ def classify_tree_diff(a: N, b: N, cfg: T.Mapping[str, T.Any]) -> str:
         a_ml, b_ml = bool(a[2]), bool(b[2])
         a_f = ka == 'fstr' or len(a) > 3      # spelled f'...' in the text (placeholder-free f-strings are normalised to 'str')
         b_f = kb == 'fstr' or len(b) > 3
-        if a_ml and not b_ml and '\\' in a[1] and a_f == b_f:
+        if a_ml and not b_ml and '\\' in a[1] and (ka == kb or a_f == b_f):
             # the raw body of the triple-quoted literal is now read with escape processing
             try:
                 redecoded = R.decode_escapes(a[1])
